@@ -363,3 +363,204 @@ Proof.
 Qed.
 
 End Exact.
+
+(* ---------------------------------------------------------------- one Batch() call of a scan node *)
+
+Lemma silent_remembers : forall sc, is_cursor_scan sc = true -> remembers sc = scan_silent sc.
+Proof. intros [| |p|lo hi|keys] H; try discriminate H; reflexivity. Qed.
+
+(* the state of the scan node against the slots left and the end flag *)
+Definition poll_inv (sc : scan) (d : store) (st : pstate) (rest : list aslot) (ended : bool) : Prop :=
+  match st with
+  | PSScan it idx e =>
+      match sc with
+      | SEmpty => True
+      | SMget keys => rest = ascan_slots (SMget (skipn idx keys)) d
+      | _ => e = ended /\ exists c, it = Some c /\
+             ((scan_silent sc = true /\ ended = true) \/
+              (rest = annot (take_until (scan_stop sc) (crest c)) /\
+               [cursor_term (scan_stop sc) (crest c)] = scan_term sc d))
+      end
+  | _ => False
+  end.
+
+Lemma poll_inv_cursor : forall sc d it idx e rest ended, is_cursor_scan sc = true ->
+  poll_inv sc d (PSScan it idx e) rest ended =
+  (e = ended /\ exists c, it = Some c /\
+     ((scan_silent sc = true /\ ended = true) \/
+      (rest = annot (take_until (scan_stop sc) (crest c)) /\
+       [cursor_term (scan_stop sc) (crest c)] = scan_term sc d))).
+Proof. intros [| |p|lo hi|keys] d it idx e rest ended H; try discriminate H; reflexivity. Qed.
+
+Lemma scan_term_cursor : forall sc d, is_cursor_scan sc = true ->
+  scan_term sc d = [cursor_term (scan_stop sc) (scan_start sc d)].
+Proof. intros [| |p|lo hi|keys] d H; try discriminate H; reflexivity. Qed.
+
+Lemma mu_scan_cursor : forall sc c idx e, is_cursor_scan sc = true ->
+  mu_scan sc (PSScan (Some c) idx e) = List.length (crest c).
+Proof. intros [| |p|lo hi|keys] c idx e H; try discriminate H; reflexivity. Qed.
+
+Section Polls.
+Variable flt : kvp -> bool.
+Variables (B fuel : nat).
+Hypothesis HB : 1 <= B.
+
+Lemma scan_poll_exact : forall sc st d rest ended, sc <> SEmpty -> poll_inv sc d st rest ended ->
+  rspec (ScanIO.scan_batch true flt B fuel sc st) d (fun x l =>
+    if scan_silent sc && ended then x = ([], st) /\ l = []
+    else match batch_pass flt B fuel (scan_term sc d) rest [] with
+         | (rows, log, rest', e) =>
+             fst x = rows /\ l = log /\ poll_inv sc d (snd x) rest' e /\
+             mu_scan sc (snd x) <= mu_scan sc st
+         end).
+Proof.
+  intros sc st d rest ended Hne Hinv. destruct st as [it idx e0|sk cur cst]; [|destruct Hinv].
+  destruct (is_cursor_scan sc) eqn:Ec.
+  - rewrite (scan_batch_cursor flt B fuel sc it idx e0 Ec), (silent_remembers sc Ec).
+    rewrite (poll_inv_cursor sc d it idx e0 rest ended Ec) in Hinv. destruct Hinv as [-> [c [-> Hc]]].
+    destruct (scan_silent sc && ended) eqn:Es.
+    + cbn [rspec]. split; reflexivity.
+    + destruct Hc as [[H1 H2]|[Hr Ht]]; [rewrite H1, H2 in Es; discriminate|].
+      apply rspec_bind. eapply rspec_mono; [|apply cursor_loop_exact; try exact HB]. cbn beta.
+      intros [[rows c'] fin] l. cbn [fst snd]. rewrite Ht, <- Hr.
+      destruct (batch_pass flt B fuel (scan_term sc d) rest []) as [[[rows1 log1] rest1] e1] eqn:Ebp.
+      intros (K1 & K2 & K3 & K4 & K5 & K6 & K7). cbn [rspec fst snd]. rewrite app_nil_r.
+      split; [exact K1|]. split; [exact K3|]. split.
+      * rewrite (poll_inv_cursor sc d (Some c') idx fin rest1 e1 Ec). split; [exact K2|].
+        exists c'. split; [reflexivity|]. destruct e1.
+        -- destruct (scan_silent sc) eqn:Esil; [left; auto|right].
+           assert (Hn : forall kv, scan_stop sc kv = false).
+           { apply stop_never. rewrite (silent_remembers sc Ec). exact Esil. }
+           rewrite (K7 eq_refl Hn). cbn [take_until cursor_term].
+           split; [eapply batch_pass_end; [exact HB|exact Ebp|reflexivity]|].
+           rewrite (scan_term_cursor sc d Ec), (cursor_term_never _ _ Hn). reflexivity.
+        -- right. destruct (K6 eq_refl) as [K8 K9]. split; [exact K8|]. rewrite K9. exact Ht.
+      * rewrite (mu_scan_cursor sc c' idx fin Ec), (mu_scan_cursor sc c idx ended Ec). exact K5.
+  - destruct sc as [| |p|lo hi|keys]; try discriminate Ec; [exfalso; apply Hne; reflexivity|].
+    cbn [scan_silent andb poll_inv scan_term ScanIO.scan_batch] in *. subst rest.
+    apply rspec_bind. eapply rspec_mono; [|apply mget_loop_exact; cbn [List.length]; lia]. cbn beta.
+    intros [rows idx'] l. cbn [fst snd].
+    destruct (batch_pass flt B fuel [] (ascan_slots (SMget (skipn idx keys)) d) []) as [[[rows1 log1] rest1] e1].
+    intros (K1 & K2 & m & M1 & M2 & M3). cbn [rspec fst snd poll_inv mu_scan]. rewrite app_nil_r.
+    split; [exact K1|]. split; [exact K2|]. split; [|lia].
+    rewrite M3, M2, skipn_add. reflexivity.
+Qed.
+
+(* Batch() until the empty batch over a scan node, EXACTLY *)
+Lemma scan_poll_loop_exact : forall sc d, sc <> SEmpty -> List.length d < fuel ->
+  forall f st rest ended l0 acc,
+  poll_inv sc d st rest ended -> mu_scan sc st < fuel -> List.length rest < fuel -> List.length rest < f ->
+  exists l1, poll_loop (plan_batch true flt B fuel (PScan sc)) (@is_nil kvp) f st (SState d l0 None) acc
+             = (Ok (acc ++ polls_spec flt B f (scan_silent sc) (scan_term sc d) rest ended), SState d (l0 ++ l1) None).
+Proof.
+  intros sc d Hne Hd. induction f as [|f IH]; intros st rest ended l0 acc Hinv Hmu Hrf Hf; [lia|].
+  cbn [poll_loop polls_spec plan_batch].
+  destruct (@rspec_total (List.length d) _ (ScanIO.scan_batch true flt B fuel sc st) d _ l0
+              (scan_poll_exact sc st d rest ended Hne Hinv)) as [[rows st'] [ext [E Q]]].
+  { eapply wp_mono; [|apply (@scan_batch_spec (List.length d) true flt B fuel HB sc st Hmu)]. auto. }
+  { lia. }
+  unfold run_read in E. rewrite E. cbn [slog]. rewrite skipn_length_app.
+  destruct (scan_silent sc && ended).
+  - destruct Q as [Q1 ->]. injection Q1 as -> ->. cbn [is_nil]. exists []. reflexivity.
+  - rewrite (@batch_pass_fuel flt B HB (S (List.length rest)) fuel (scan_term sc d) rest []) by lia.
+    destruct (batch_pass flt B fuel (scan_term sc d) rest []) as [[[rows1 log1] rest1] e1] eqn:Ebp.
+    cbn [fst snd] in Q. destruct Q as (-> & -> & Hinv' & Hmu').
+    destruct rows1 as [|r0 rows1]; cbn [is_nil].
+    + exists log1. reflexivity.
+    + pose proof Ebp as M. apply batch_pass_measure in M; [|exact HB]. cbn [List.length] in M.
+      assert (M1 : List.length rest1 < List.length rest) by (unfold aslot in *; lia).
+      destruct (IH st' rest1 e1 (l0 ++ log1) (acc ++ [(log1, r0 :: rows1)]) Hinv') as [l1 E1]; try lia.
+      change (plan_batch true flt B fuel (PScan sc)) with (ScanIO.scan_batch true flt B fuel sc) in E1.
+      exists (log1 ++ l1). rewrite E1, <- !app_assoc. reflexivity.
+Qed.
+
+End Polls.
+
+(* the poll spec does not depend on its fuel once it exceeds the number of slots *)
+Lemma polls_spec_fuel : forall flt B, 1 <= B -> forall f f' silent term rest ended,
+  List.length rest < f -> List.length rest < f' ->
+  polls_spec flt B f silent term rest ended = polls_spec flt B f' silent term rest ended.
+Proof.
+  intros flt B HB. induction f as [|f IH]; intros f' silent term rest ended H H'; [lia|].
+  destruct f' as [|f']; [lia|]. cbn [polls_spec]. destruct (silent && ended); [reflexivity|].
+  destruct (batch_pass flt B (S (List.length rest)) term rest []) as [[[rows log] rest'] e] eqn:Ebp.
+  destruct rows as [|r0 rows]; [reflexivity|].
+  pose proof Ebp as M. apply batch_pass_measure in M; [|exact HB]. cbn [List.length] in M.
+  assert (M1 : List.length rest' < List.length rest) by (unfold aslot in *; lia).
+  rewrite (IH f'); [reflexivity|lia|lia].
+Qed.
+
+Lemma ascan_slots_length : forall sc d, List.length (ascan_slots sc d) <= List.length d + plan_keys (PScan sc).
+Proof.
+  intros sc d. assert (Hs : forall k, List.length (take_until (scan_stop sc) (seek_from k d)) <= List.length d).
+  { intros k. etransitivity; [apply take_until_length|apply seek_from_length]. }
+  pose proof (take_until_length (scan_stop sc) d) as Hd.
+  destruct sc as [| |p|[k|] hi|keys]; cbn [ascan_slots scan_start plan_keys List.length]; rewrite ?map_length.
+  - lia.
+  - specialize (Hs EmptyString). lia.
+  - specialize (Hs p). lia.
+  - specialize (Hs k). lia.
+  - lia.
+  - lia.
+Qed.
+
+Lemma scan_eq_empty : forall sc, sc = SEmpty \/ sc <> SEmpty.
+Proof. intros [| |p|lo hi|keys]; [left; reflexivity|right; discriminate..]. Qed.
+
+(* BuildPlan over a scan node: the Init calls (twice), the cursor where Init leaves it *)
+Lemma scan_build_exact : forall sc d,
+  rspec (plan_build (PScan sc)) d (fun st l =>
+    l = scan_init_calls sc ++ scan_init_calls sc /\ poll_inv sc d st (ascan_slots sc d) false /\
+    mu_scan sc st <= List.length d + plan_keys (PScan sc)).
+Proof.
+  intros sc d. pose proof (seek_from_length) as SL.
+  assert (Hc : forall (stop : kvp -> bool) rest, List.length rest <= List.length d ->
+     (false = false /\
+     (exists c : cursor, Some (Cur d rest) = Some c /\
+        (scan_silent sc = true /\ false = true \/
+         map (fun kv : kvp => (CNext (Some (fst kv)), Some kv)) (take_until stop rest) = annot (take_until stop (crest c)) /\
+         [cursor_term stop (crest c)] = [cursor_term stop rest]))) /\
+     List.length rest <= List.length d + 0).
+  { intros stop rest Hl. split; [|lia]. split; [reflexivity|]. eexists. split; [reflexivity|]. right. split; reflexivity. }
+  destruct sc as [| |p|[k|] hi|keys]; cbn; (split; [reflexivity|]).
+  - split; [exact I|lia].
+  - apply (Hc (scan_stop SFull)), SL.
+  - apply (Hc (scan_stop (SPrefix p))), SL.
+  - apply (Hc (scan_stop (SRange (Some k) hi))), SL.
+  - apply (Hc (scan_stop (SRange None hi))). lia.
+  - split; [reflexivity|lia].
+Qed.
+
+(* [scan_batches_agree].  For every scan node (empty / full / prefix / range / multi-get), every
+   store, every filter oracle, every batch size B >= 1 and every fuel above |store| + listed keys:
+   BuildPlan and then Batch() polled until the empty batch, every call run on its own, returns
+   EXACTLY [scan_polls_spec]: the Init calls, and per Batch() call the storage calls it issued
+   and the pairs it returned -- the batches of Model/ScanProj.v's loop over the slots, with the
+   call that reads each slot and the one Next that discovers the end. *)
+Theorem scan_polls_agree_lemma :
+  forall (flt : kvp -> bool) (B fuel : nat) (sc : scan) (d : store) (l0 : list scall),
+  1 <= B -> List.length d + plan_keys (PScan sc) < fuel ->
+  exists l, scan_polls true flt B fuel (PScan sc) (SState d l0 None)
+            = (Ok (scan_init_calls sc ++ scan_init_calls sc, scan_polls_spec flt B sc d), SState d (l0 ++ l) None)
+            /\ l = (scan_init_calls sc ++ scan_init_calls sc) ++ List.concat (map fst (scan_polls_spec flt B sc d)).
+Proof.
+  intros flt B fuel sc d l0 HB Hf. unfold scan_polls.
+  destruct (@rspec_total (List.length d) _ (plan_build (PScan sc)) d _ l0 (scan_build_exact sc d))
+    as [st [ext [E (-> & Hinv & Hmu)]]].
+  { eapply wp_mono; [|apply plan_build_wp]. auto. }
+  { lia. }
+  unfold run_read in E. rewrite E. cbn [slog]. rewrite skipn_length_app.
+  destruct (scan_eq_empty sc) as [->|Hne].
+  - destruct fuel as [|fuel']; [lia|]. cbn in E. injection E as <- _. cbn. exists []. rewrite !app_nil_r, skipn_all. split; reflexivity.
+  - pose proof (ascan_slots_length sc d) as AL.
+    destruct (@scan_poll_loop_exact flt B fuel HB sc d Hne ltac:(lia) fuel st (ascan_slots sc d) false
+                (l0 ++ scan_init_calls sc ++ scan_init_calls sc) [] Hinv ltac:(lia) ltac:(lia) ltac:(lia)) as [l1 E1].
+    rewrite E1. cbn [app].
+    assert (Es : polls_spec flt B fuel (scan_silent sc) (scan_term sc d) (ascan_slots sc d) false = scan_polls_spec flt B sc d).
+    { unfold scan_polls_spec. destruct sc; try (exfalso; apply Hne; reflexivity); (apply polls_spec_fuel; [exact HB|lia|lia]). }
+    rewrite Es.
+    pose proof E1 as E2. apply poll_loop_log in E2. destruct E2 as [ps' [Eps Hl]]. cbn [app slog] in *. subst ps'.
+    rewrite Es in Hl. apply app_inv_head in Hl. subst l1.
+    exists ((scan_init_calls sc ++ scan_init_calls sc) ++ List.concat (map fst (scan_polls_spec flt B sc d))).
+    rewrite <- !app_assoc. split; reflexivity.
+Qed.
